@@ -74,6 +74,9 @@ private:
     /// raw copy of the original client request-line URI field
     SBuf uri_;
 
+    /// the number of input bytes consumed while parsing the request-line
+    Http1::Parser::size_type firstLineBytes_ = 0;
+
     /// all parsed bytes (i.e., input prefix consumed by parse() calls)
     /// meaningless unless preserveParsed_ is true
     SBuf parsed_;
